@@ -254,9 +254,12 @@ def badContinuations : Bool → List (List Char) → List (List Char × Option (
 /-! ### what kind of line is it? (second half of the property: every written line is an instruction, a comment or a
     continuation) -/
 
-/-- the instruction names of SHELXL (manual; SHELXL compares the first four characters, case-insensitively) -/
+/-- the instruction names of SHELXL (manual, including the instructions of SHELXL-2019 `BEDE`, `LONE` and the
+    instructions the program accepts without documenting them: `TIME`, `HOPE`, `MOLE`, `CHAN`, `FLAP`, `RNUM`, `SOCC`,
+    `RANG`, `TANG`, `ADDA`, `STAG`, `REST`, `NOTR`; SHELXL compares the first four characters, case-insensitively) -/
 def keywords : List String :=
-  ["ABIN", "ACTA", "AFIX", "ANIS", "ANSC", "ANSR", "BASF", "BIND", "BLOC", "BOND", "BUMP", "CELL", "CGLS", "CHIV", "CONF", "CONN", "DAMP", "DANG", "DEFS", "DELU", "DFIX", "DISP", "EADP", "END", "EQIV", "EXTI", "EXYZ", "FEND", "FLAT", "FMAP", "FRAG", "FREE", "FVAR", "GRID", "HFIX", "HKLF", "HOPE", "HTAB", "ISOR", "LATT", "LAUE", "LIST", "L.S.", "MERG", "MOLE", "MORE", "MOVE", "MPLA", "NCSY", "NEUT", "OMIT", "PART", "PLAN", "PRIG", "REM", "RESI", "RIGU", "RTAB", "SADI", "SAME", "SFAC", "SHEL", "SIMU", "SIZE", "SLIM", "SPEC", "STIR", "SUMP", "SWAT", "SYMM", "TEMP", "TIME", "TITL", "TWIN", "TWST", "UNIT", "WGHT", "WIGL", "WPDB", "XNPD", "ZERR"]
+  ["ABIN", "ACTA", "AFIX", "ANIS", "ANSC", "ANSR", "BASF", "BIND", "BLOC", "BOND", "BUMP", "CELL", "CGLS", "CHIV", "CONF", "CONN", "DAMP", "DANG", "DEFS", "DELU", "DFIX", "DISP", "EADP", "END", "EQIV", "EXTI", "EXYZ", "FEND", "FLAT", "FMAP", "FRAG", "FREE", "FVAR", "GRID", "HFIX", "HKLF", "HOPE", "HTAB", "ISOR", "LATT", "LAUE", "LIST", "L.S.", "MERG", "MOLE", "MORE", "MOVE", "MPLA", "NCSY", "NEUT", "OMIT", "PART", "PLAN", "PRIG", "REM", "RESI", "RIGU", "RTAB", "SADI", "SAME", "SFAC", "SHEL", "SIMU", "SIZE", "SLIM", "SPEC", "STIR", "SUMP", "SWAT", "SYMM", "TEMP", "TIME", "TITL", "TWIN", "TWST", "UNIT", "WGHT", "WIGL", "WPDB", "XNPD", "ZERR",
+   "BEDE", "LONE", "CHAN", "FLAP", "RNUM", "SOCC", "RANG", "TANG", "ADDA", "STAG", "REST", "NOTR"]
 
 /-- the keyword a token stands for: upper case, residue suffix (`SADI_CCF3`, `ANIS_*`) removed, four characters -/
 def keywordOf (t : List Char) : String := String.ofList (((t.takeWhile (· ≠ '_')).map Char.toUpper).take 4)
@@ -274,8 +277,15 @@ def isAtomLine (toks : List (List Char)) : Bool :=
   | name :: rest => (match name with | c :: _ => c.isAlpha | [] => false) && rest.length ≥ 4 && (rest.take 4).all isNumberTok
   | [] => false
 
-/-- class of one physical line; `inside`: the previous line of the instruction was flagged as continued -/
-def lineClass (inside : Bool) (pl : List Char) : String :=
+/-- the code of the logical line that begins with the physical line `pl`: the code parts of `pl` and of the lines that
+    continue it, joined as the continuation-joining lexer joins them -/
+def logicalCode (pl : List Char) : List (List Char) → List Char
+  | [] => if flaggedC pl then body (code pl) else code pl
+  | q :: rest => if flaggedC pl then body (code pl) ++ logicalCode q rest else code pl
+
+/-- class of one physical line; `inside`: the previous line of the instruction was flagged as continued; `whole`: the code
+    of the whole logical line that begins here (an atom may be continued anywhere, even directly behind its name) -/
+def lineClass (inside : Bool) (pl : List Char) (whole : List Char := code pl) : String :=
   if inside then (if startsBlank pl then "continuation" else "continuation-not-blank")
   else if allBlank pl then "blank"
   else if startsBlank pl then "comment"
@@ -285,14 +295,14 @@ def lineClass (inside : Bool) (pl : List Char) : String :=
       if t.head? == some '!' then "comment"
       else if t.head? == some '+' && !isNumberTok t then "include"
       else if keywords.contains (keywordOf t) then (if keywordOf t == "REM" then "comment" else "instruction")
-      else if isAtomLine (tokens (code pl)) then "atom"
+      else if isAtomLine (tokens whole) then "atom"
       else "unknown"
 
 /-- the classes of the physical lines of a file, read as SHELXL reads them -/
 def lineClasses : Bool → List (List Char) → List (String × List Char)
   | _, [] => []
   | inside, pl :: rest =>
-    let c := lineClass inside pl
+    let c := lineClass inside pl (logicalCode pl rest)
     let next := (inside || !(c == "comment" || c == "blank")) && flaggedC pl
     (c, pl) :: lineClasses next rest
 
